@@ -63,7 +63,10 @@ func checkCalls(pass *analysis.Pass, rules map[string]Check) (any, error) {
 		}
 		var args []*Argument
 		irargs := site.Common().Args
-		if callee.Signature.Recv() != nil {
+		// Methods receive their receiver as the first argument. That is true for method
+		// expressions, too: their thunks have no receiver but call the method with one more
+		// argument than it has parameters.
+		if sig := obj.Type().(*types.Signature); callee.Signature.Recv() != nil || sig.Recv() != nil && len(irargs) == sig.Params().Len()+1 {
 			irargs = irargs[1:]
 		}
 		for _, arg := range irargs {
@@ -88,6 +91,8 @@ func checkCalls(pass *analysis.Pass, rules map[string]Check) (any, error) {
 			astcall = source.Call
 		case *ast.GoStmt:
 			astcall = source.Call
+		case *ast.RangeStmt:
+			// The implicit call of the function in a range-over-func loop.
 		case nil:
 			// TODO(dh): I am not sure this can actually happen. If it
 			// can't, we should remove this case, and also stop
